@@ -490,6 +490,37 @@ pub fn check(property: &str, tier: &str, top: u64) -> i32 {
     let mut reported: Vec<String> = Vec::new();
     let mut known_lines: Vec<String> = Vec::new();
     let mut harness_errors: Vec<String> = Vec::new();
+
+    // ---- regression corpus: replay files of earlier failures (fixed defects and corrected
+    // false alarms) are re-executed on every check; each has to come out clean
+    let mut corpus_replayed = 0u64;
+    let mut corpus: Vec<String> = std::fs::read_dir(format!("{root}/regressions"))
+        .map(|d| d.filter_map(|e| e.ok()).map(|e| e.file_name().to_string_lossy().into_owned()).collect())
+        .unwrap_or_default();
+    corpus.retain(|n| n.starts_with(&format!("{property}-")) && n.ends_with(".json"));
+    corpus.sort();
+    for name in &corpus {
+        let committed = format!("{root}/regressions/{name}");
+        let copy = format!("{scratch}/corpus-{name}");
+        if std::fs::copy(&committed, &copy).is_err() {
+            harness_errors.push(format!("cannot stage regression replay {committed}"));
+            continue;
+        }
+        let r = exec_replay(&copy, Duration::from_secs(HANG_SECS + 30));
+        corpus_replayed += 1;
+        if let Some(rule) = r.rule.as_deref() {
+            if let Some(k) = matches_known(&findings, property, rule, &r.detail) {
+                known_lines.push(format!("KNOWN-FINDING: property={property} {} [{rule}]", k.what));
+            } else {
+                println!("VIOLATION property={property} replay={committed}");
+                println!("  rule: {rule} (regression corpus)");
+                for l in r.detail.lines().take(12) {
+                    println!("  {l}");
+                }
+                reported.push(committed);
+            }
+        }
+    }
     let mut by_rule: BTreeMap<String, Vec<&Outcome>> = BTreeMap::new();
     for (_, o) in &all {
         if let Verdict::Violation { rule, .. } = &o.verdict {
@@ -705,6 +736,7 @@ pub fn check(property: &str, tier: &str, top: u64) -> i32 {
             "inconclusive_runs": inconclusive,
             "violating_runs": violations_total,
             "known_findings_seen": known_lines.len(),
+            "regression_replays_executed": corpus_replayed,
             "harness_errors": harness_errors,
             "fault_kinds_fired": faults,
             "buggify_fired": fail_hits,
